@@ -80,7 +80,7 @@ PROPS = {
     "C03": {
         "harness": "C03",
         "profiles": ["debug"],
-        "rule": "(environment, argument types, values) triples: hand-written recursive lists with aliases of primitives (alias chains, an alias of principal), undefined names, more types than values; "
+        "rule": "native half: for every Rust type of the corpus (~420 types, derived structs and enums with renamed and raw-identifier fields, recursive types, type tables of more than 64 entries) the bytes the native encoder writes for generated values are read by the specification reader at the derived type (2 / 40 values per type); untyped half: (environment, argument types, values) triples: hand-written recursive lists with aliases of primitives (alias chains, an alias of principal), undefined names, more types than values; "
                 "random possibly-recursive environments with 0-3 arguments and generated inhabitants (named and numeric labels, references), near-miss values (wrong width, missing field, unknown tag, wrong reference kind) and the three allowances; "
                 "each is encoded by to_bytes_with_types (twice: determinism), read back by from_bytes_with_types and from_bytes, and compared byte-for-byte with the encoder model and value-for-value with the spec reader; "
                 "every request is non-trivial; distinct = distinct request lines",
@@ -284,7 +284,7 @@ PROPS = {
     },
     "C20": {
         "profiles": ["debug"],
-        "rule": "environments of 0..4 generated definitions (recursive, possibly uninhabited, with empty / reserved / function / service types), 0..3 requested types, seeds of 0..4096 bytes (all zero, all 0xff, random), configurations drawn from depth in {-1..30}, size in {-1..1000}, width in {0..40}, ranges incl. empty and out-of-type ones, every text kind and an unknown one, values supplied by configuration (well and ill typed, unparsable); "
+        "rule": "environments of 0..4 generated definitions (recursive, possibly uninhabited, with empty / reserved / function / service types), 0..3 requested types, seeds of 0..4096 bytes (all zero, all 0xff, random), configurations drawn from depth in {-1..30}, size in {-1..1000}, width in {0..40}, a depth of their own in {0..5} for some of the named types ([random.<name>] sections, one time in three), ranges incl. empty and out-of-type ones, every text kind and an unknown one, values supplied by configuration (well and ill typed, unparsable); "
                 "each call goes through random::any under catch_unwind; a returned value must annotate unchanged at the requested types, encode at them, and nest no deeper than the configured depth plus one pass through the type structure; returned values are re-checked against the model's typing relation; "
                 "the size estimate of every requested type and every definition is compared with the model through a cfg(candid_verif) hook; every number type with ranges around all type bounds (error exactly when the clamped range is empty; returned numbers within the clamped range); every request is non-trivial; distinct = distinct request lines",
         "trusted": [
